@@ -64,6 +64,8 @@ func checkC03(c *Ctx) {
 
 	// Minter events get their nonces from the connector: its restart / numbering clauses (C20)
 	c.include("connector", "C20", rulesIn("C20.cursor", "C20.counted-iff-valid"))
+	// the tally of a chain reads the vote records of that chain only: bounded scans end inside the chain
+	c.checkIteratorBounds("C03.tally-order", func(pn string) bool { return pn == "ExternalEventVoteRecordKey" })
 
 	// the observed-event cursor survives a restart for every chain (the genesis clauses of C15 about it)
 	c.includeKeys("genesis", "C15", rulesIn("C15.faithful-import", "C15.field-roundtrip", "C15.prefix-export", "C15.export-own-state"), func(rule, key string) bool {
